@@ -197,32 +197,34 @@ structure Span where
 def Span.has (sp : Span) (p : Nat) : Prop := sp.lo ≤ p ∧ p < sp.hi
 
 /-- The two compiler facts the end-to-end claim rests on. `stmtOf p` is the span of the innermost
-statement whose compilation emitted the instruction at `p`.
-* `entry_in_stmt` (srcmap_complete): every instruction that can fail and has operand bytes has an entry and it
-  lies in its statement (instructions that cannot fail may carry `NoPos`, e.g. the `CONST 1` of `x++`, or no
-  entry at all, e.g. main's final SUSPEND);
-* `first_instr_safe`: an instruction whose errors are reported through its predecessor HAS a
+statement whose compilation emitted the instruction at `p`; `live p` says the instruction at `p` can
+execute (dead-code removal may leave an unreachable tail behind a jump target whose jumps were removed,
+e.g. the `NEG; RET` of a dead `return -(3 || 10)`: such instructions never run and never fail).
+* `entry_in_stmt` (srcmap_complete): every live instruction that can fail and has operand bytes has an
+  entry and it lies in its statement (instructions that cannot fail may carry `NoPos`, e.g. the `CONST 1` of
+  `x++`, or no entry at all, e.g. main's final SUSPEND);
+* `first_instr_safe`: a live instruction whose errors are reported through its predecessor HAS a
   predecessor, and that predecessor's entry lies in the same statement.
 The compiler is not modelled in this package; both are checked on every function of every generated
-program by the `static` stream (real compiler, real parser spans). -/
-structure StmtAttribution (is : List Instr) (sm : SrcMap) (stmtOf : Nat → Span) : Prop where
-  entry_in_stmt : ∀ x ∈ is, (∃ a, advanceOf x.op = some a) → x.size ≠ 1 →
+program by the `static` stream (real compiler, real parser spans, control-flow reachability for `live`). -/
+structure StmtAttribution (is : List Instr) (sm : SrcMap) (stmtOf : Nat → Span) (live : Nat → Prop) : Prop where
+  entry_in_stmt : ∀ x ∈ is, live x.pos → (∃ a, advanceOf x.op = some a) → x.size ≠ 1 →
     ∃ s, sm.lookup x.pos = some s ∧ (stmtOf x.pos).has s
-  first_instr_safe : ∀ x ∈ is, advanceOf x.op = some 0 →
+  first_instr_safe : ∀ x ∈ is, live x.pos → advanceOf x.op = some 0 →
     ∃ w ∈ is, w.pos + w.size = x.pos ∧ ∃ t, sm.lookup w.pos = some t ∧ (stmtOf x.pos).has t
 
-/-- **error_pos_in_stmt (partial: relative to `StmtAttribution`).** Whatever instruction fails, the
+/-- **error_pos_in_stmt (partial: relative to `StmtAttribution`).** Whatever live instruction fails, the
 reported position lies in the span of the statement the failing instruction belongs to. -/
 theorem error_pos_in_stmt_partial {s0 : Nat} {is : List Instr} {sm : SrcMap} {stmtOf : Nat → Span}
-    (hl : Layout s0 is) (ho : OnlyStarts sm is) (hc : StmtAttribution is sm stmtOf)
-    {x : Instr} (hx : x ∈ is) {a : Nat} (ha : advanceOf x.op = some a) :
+    {live : Nat → Prop} (hl : Layout s0 is) (ho : OnlyStarts sm is) (hc : StmtAttribution is sm stmtOf live)
+    {x : Instr} (hx : x ∈ is) (hlive : live x.pos) {a : Nat} (ha : advanceOf x.op = some a) :
     ∃ r, reportAt sm x.op x.pos = some r ∧ (stmtOf x.pos).has r := by
   by_cases h1 : x.size = 1
   · have h0 : a = 0 := (advance_lt_size ha).2.mpr h1
     subst h0
-    obtain ⟨w, hw, hadj, t, ht, hin⟩ := hc.first_instr_safe x hx ha
+    obtain ⟨w, hw, hadj, t, ht, hin⟩ := hc.first_instr_safe x hx hlive ha
     exact ⟨t, error_report_prev hl ho ha hw hadj ht, hin⟩
-  · obtain ⟨s, hs, hin⟩ := hc.entry_in_stmt x hx ⟨a, ha⟩ h1
+  · obtain ⟨s, hs, hin⟩ := hc.entry_in_stmt x hx hlive ⟨a, ha⟩ h1
     exact ⟨s, error_report_own hl ho hx hs ha h1, hin⟩
 
 /-! ## 4. Frames -/
@@ -385,9 +387,9 @@ example : sourcePos exFsm 7 = 40 ∧ sourcePos exFsm 5 = 45 ∧ sourcePos exFsm 
   decide
 
 /-- Statement attribution for the example: one statement `return -a + 1` spanning [33, 50). -/
-example : StmtAttribution exF exFsm (fun _ => ⟨33, 50⟩) := by
+example : StmtAttribution exF exFsm (fun _ => ⟨33, 50⟩) (fun _ => True) := by
   constructor
-  · intro x hx _ _
+  · intro x hx _ _ _
     simp only [exF, List.mem_cons, List.not_mem_nil, or_false] at hx
     rcases hx with rfl | rfl | rfl | rfl | rfl
     · exact ⟨41, by decide, by decide, by decide⟩
@@ -395,7 +397,7 @@ example : StmtAttribution exF exFsm (fun _ => ⟨33, 50⟩) := by
     · exact ⟨45, by decide, by decide, by decide⟩
     · exact ⟨40, by decide, by decide, by decide⟩
     · exact ⟨33, by decide, by decide, by decide⟩
-  · intro x hx ha
+  · intro x hx _ ha
     simp only [exF, List.mem_cons, List.not_mem_nil, or_false] at hx
     rcases hx with rfl | rfl | rfl | rfl | rfl
     · exact absurd ha (by decide)
